@@ -1,0 +1,49 @@
+// Copyright ©2024 The bíogo Authors. All rights reserved.
+// Use of this source code is governed by a BSD-style
+// license that can be found in the LICENSE file.
+
+//go:build verif
+
+package bgzf
+
+import "sync"
+
+// VerifHook, when set before a Reader or Writer is created, is called at
+// the instrumented points of the package with the point's name, a small
+// identifier of the worker involved (0 if none) and a point-specific value.
+// It may block: a blocking hook delays the calling goroutine at that point.
+var VerifHook func(point string, worker int, arg int64)
+
+var (
+	verifMu  sync.Mutex
+	verifIDs = map[interface{}]int{}
+)
+
+func verifID(p interface{}) int {
+	verifMu.Lock()
+	defer verifMu.Unlock()
+	id, ok := verifIDs[p]
+	if !ok {
+		id = len(verifIDs) + 1
+		verifIDs[p] = id
+	}
+	return id
+}
+
+func verifAt(point string, arg int64) {
+	if h := VerifHook; h != nil {
+		h(point, 0, arg)
+	}
+}
+
+func verifAtC(point string, c *compressor, arg int64) {
+	if h := VerifHook; h != nil {
+		h(point, verifID(c), arg)
+	}
+}
+
+func verifAtD(point string, d *decompressor, arg int64) {
+	if h := VerifHook; h != nil {
+		h(point, verifID(d), arg)
+	}
+}
